@@ -134,7 +134,7 @@ Qed.
 Definition loop1_is_find_sync_subject (lst : list Z) (idx : Z) (b : list Z) (ok : bool) (ps0 : Z) (kd : rkind) (rerr : option gerr)
   (w : mworld) :=
   autoDetectPacketSize_loop1 mworld rkind unit as_seeker_m seek_m unit (read_full_m wr) discard_m
-    lst idx b (Some tt) None 193 ok ps0 kd rerr false w.
+    lst idx w kd ps0 None 193 b false rerr (Some tt) ok.
 
 Lemma loop1_is_find_sync lst : forall idx b ok ps0 kd rerr r pm g c,
   loop1_is_find_sync_subject lst idx b ok ps0 kd rerr (mw r pm g c) =
@@ -153,7 +153,7 @@ Qed.
 Definition loop2_is_find_sync_subject (lst : list Z) (idx : Z) (b : list Z) (br : option unit) (ok : bool) (ps0 : Z) (kd : rkind)
   (rerr : option gerr) (w : mworld) :=
   autoDetectPacketSize_loop2 mworld rkind unit as_seeker_m seek_m unit (read_full_m wr)
-    lst idx b br None 193 ok ps0 kd rerr true w.
+    lst idx w kd ps0 None 193 b true rerr br ok.
 
 Definition resync (kd : rkind) (ps : Z) (r1 : reader) (pm : pmap) (g : list (list Packet)) (c : list Packet)
   : outcome (Z * option gerr * mworld) :=
@@ -217,7 +217,7 @@ Ltac non_bufio_found kd :=
     change C_syncByte with syncByte; change (Z.to_nat 0) with 0%nat;
     destruct (negb (nth 0 (pad_to bs detect_window) 0 =? syncByte)); [cbn [ad_rel fst snd res_rel_exact]; repeat split|];
     change (autoDetectPacketSize_loop2 mworld rkind unit as_seeker_m seek_m unit (read_full_m wr)
-              (pad_to bs detect_window) 0 (pad_to bs detect_window) None None 193 false 0 kd None true (mw r1 pm g c))
+              (pad_to bs detect_window) 0 (mw r1 pm g c) kd 0 None 193 (pad_to bs detect_window) true None None false)
       with (loop2_is_find_sync_subject (pad_to bs detect_window) 0 (pad_to bs detect_window) None false 0 kd None (mw r1 pm g c));
     rewrite loop2_is_find_sync;
     destruct (find_sync (pad_to bs detect_window) 0) as [?ps|]; [|cbn [ad_rel fst snd res_rel_exact]; repeat split];
@@ -234,7 +234,7 @@ Ltac bufio_found Hrf :=
     [unfold discard_m, mw_set_reader, mw; cbn [obind mw_reader mw_pm mw_groups mw_consulted];
      change 193 with detect_window; rewrite Hrf; cbn [snd ad_rel fst res_rel_exact]; repeat split|];
     change (autoDetectPacketSize_loop1 mworld rkind unit as_seeker_m seek_m unit (read_full_m wr) discard_m
-              (pad_to bs detect_window) 0 (pad_to bs detect_window) (Some tt) None 193 true 0 Bufio None false (mw r pm g c))
+              (pad_to bs detect_window) 0 (mw r pm g c) Bufio 0 None 193 (pad_to bs detect_window) false None (Some tt) true)
       with (loop1_is_find_sync_subject (pad_to bs detect_window) 0 (pad_to bs detect_window) true 0 Bufio None (mw r pm g c));
     rewrite loop1_is_find_sync; rewrite Hrf;
     destruct (find_sync (pad_to bs detect_window) 0) as [?ps|]; cbn [snd ad_rel fst res_rel_exact]; repeat split
